@@ -70,7 +70,7 @@ def spec(tier, seed):
             combos.append(tuple(f))
     combos = sorted(set(combos))
     if q:
-        combos = [(1, 2**64 - 1, 1, 1), (1, 1, 1, 2**64 - 1), (2**63, 1, 1, 1), (1, 1, 2**63, 1), (1, 10**12, 1, 1), (2**64 - 1, 1, 2**64 - 1, 1), (0, 0, 1, 1), (1, 1, 0, 0)]
+        combos = [(1, 2**64 - 1, 1, 1), (1, 1, 1, 2**64 - 1), (2**63, 1, 1, 1), (1, 1, 2**63, 1), (1, 10**12, 1, 1), (0, 0, 1, 1), (1, 1, 0, 0), (5, 0, 6, 2)]
     for (a_, b_, c_, d_) in combos:
         hdr = "@@ -%d,%d +%d,%d @@\n" % (a_, b_, c_, d_)
         n = len(hdr) + 4
